@@ -28,6 +28,18 @@ CLAIMED = {
              'clients finished. A clean batch is evidence, not proof; tiny configurations saturate their interleaving space.',
         note='Trusted: CPython 3.12 asyncio primitives, the compatibility layer (DESIGN 1), FIFO ready queue. '
              'TCP/DNS/clock are simulated.'),
+    'C13': dict(
+        level='exploration', engine='pipeline', design_ref='4/C13',
+        technique='deterministic simulation: seeded item/latency/exception workloads and controller actions (concurrency '
+                  'changes incl. pause, stop via SIGINT wiring) against the real Pipeline/ItemQueue/Application on a '
+                  'virtual-time loop; exactly-once/order oracle on the (task,item) log, bounded liveness via deadlock detection',
+        text='Seeded search over item counts, per-call latencies (every completion order), concurrency changes including '
+             'pause, stop requests at drawn instants and exceptions in any task or source call, against the real '
+             'Pipeline/ItemQueue/Producer/Worker and (one variant) Application+PipelineSeries. Order/at-most-once/foreign-item '
+             'are checked at every task start; exactly-once, no-work-after-stop, error surfacing and termination over the '
+             'history. Hangs are detected exactly (nothing runnable, no timer) rather than by wall-clock.',
+        note='Trusted: CPython 3.12 asyncio primitives, compatibility layer, FIFO ready queue. Source and tasks are '
+             'instrumented stubs; the queue pop is observed through a PriorityQueue subclass.'),
 }
 
 PENDING_REASON = 'check not built yet in this round (designed in DESIGN.md section 4); no claim is made'
